@@ -14,6 +14,9 @@
 //               boundaries (where the WAL calls back into the controller: CommitOffsetProvider) while writes
 //               are in flight; with rf <= 2 a trimmer round (wal.VerifDoTrim, retention 1 ms) runs every
 //               millisecond as well
+//   ack-before-send-returns  the follower's ack of entry N is delivered to the leader AND processed by it before the
+//               cursor's stream.Send(N) returns (a very fast follower / a descheduled sender); sequential writer,
+//               leader + that follower are the quorum, so nothing heals a lost ack
 //   stream-break  the REAL follower cursor behind a replication stream that breaks inside the term with messages
 //               in flight (the last k pushed entries lost, or delivered but their acks lost), for rf 2,3,5 with
 //               the broken follower needed for the quorum.  The peer keeps its log across streams and behaves
@@ -34,6 +37,7 @@ import (
 	"errors"
 	"fmt"
 	"os"
+	"sort"
 	"sync"
 	"sync/atomic"
 	"time"
@@ -233,6 +237,9 @@ type follower struct {
 	openOnce sync.Once
 	g        *gates
 	manual   bool  // acks are handed out by the scenario (ack), not automatically
+	ackFirst bool  // the ack is delivered and its processing awaited before Send returns
+	procCh   chan int64 // offsets whose ack the leader has finished processing (Recv called again)
+	settled  int32 // acks whose processing was seen before Send returned
 	sendHold int64 // Send of this offset is held until the gated callback has been entered
 	lastOut  int64 // last ack handed to the leader by Recv
 	received []int64
@@ -252,6 +259,23 @@ func (f *follower) Send(a *proto.Append) error {
 	f.mu.Unlock()
 	if !f.manual {
 		f.acks <- &proto.Ack{Offset: off}
+	}
+	if f.ackFirst && !f.manual {
+		deadline := time.After(gateTimeout)
+	settle:
+		for {
+			select {
+			case done := <-f.procCh:
+				if done >= off {
+					atomic.AddInt32(&f.settled, 1)
+					break settle
+				}
+			case <-deadline:
+				break settle
+			case <-f.ctx.Done():
+				break settle
+			}
+		}
 	}
 	return nil
 }
@@ -282,6 +306,12 @@ func (f *follower) Recv() (*proto.Ack, error) {
 		case <-f.g.ackDone:
 		default:
 			close(f.g.ackDone)
+		}
+	}
+	if f.ackFirst && f.lastOut >= 0 {
+		select {
+		case f.procCh <- f.lastOut:
+		default:
 		}
 	}
 	select {
@@ -439,6 +469,8 @@ type scenario struct {
 	segSize   int32   // WAL segment size (0 = 256 KiB: no rollover in a scenario)
 	valMax    int     // own put's value is padded to 100..valMax bytes (0 = the key only)
 	trim      bool    // a trimmer round every millisecond while the writes run (retention 1 ms)
+	ackFirst  bool    // followers: ack delivered and processed before the cursor's Send returns
+	quorumOnly bool   // only rf/2 followers are alive (every one of them is needed for the quorum)
 	streamBreak int   // 0 = none; k > 0: f1's stream breaks with the last k pushed entries in flight
 	dropAcks  bool    // stream-break: the entries arrive, their acks are lost (false: the entries are lost)
 	applyGate bool    // hold the application of offset puts-2 while the ack for puts-1 of the other follower is delivered
@@ -564,18 +596,18 @@ func runScenario(o *hx.Out, sc scenario, tmpRoot string, idx int) {
 	fmap := map[string]*proto.EntryId{}
 	for i := uint32(1); i < sc.rf; i++ {
 		n := fmt.Sprintf("f%d", i)
-		if sc.streamBreak > 0 {
+		if sc.streamBreak > 0 || sc.quorumOnly {
 			fmap[n] = server.InvalidEntryId
 			switch {
-			case i == 1:
+			case i == 1 && sc.streamBreak > 0:
 				prov.pfollowers[n] = &pfollower{}
 				continue
-			case i > sc.rf/2: // only rf/2 followers are alive: the one whose stream breaks is needed for the quorum
+			case i > sc.rf/2: // only rf/2 followers are alive: each of them is needed for the quorum
 				prov.dead[n] = true
 				continue
 			}
 		}
-		f := &follower{name: n, acks: make(chan *proto.Ack, 1<<16), opened: make(chan struct{}), g: g, sendHold: -1, lastOut: -1,
+		f := &follower{name: n, ackFirst: sc.ackFirst, procCh: make(chan int64, 1<<12), acks: make(chan *proto.Ack, 1<<16), opened: make(chan struct{}), g: g, sendHold: -1, lastOut: -1,
 			ctx: context.Background(), manual: sc.applyGate || sc.ctxCancel}
 		if i == 1 && sc.earlyAck > 0 {
 			f.sendHold = sc.earlyAck - 1
@@ -599,8 +631,8 @@ func runScenario(o *hx.Out, sc scenario, tmpRoot string, idx int) {
 	}
 
 	viol := func(sig, det string) {
-		o.Violation(sig, fmt.Sprintf("scenario %s (rf=%d syncData=%v writers=%d puts=%d holdAt=%v earlyAck=%d walSegment=%d valMax=%d trim=%v): %s",
-			sc.name, sc.rf, sc.syncData, sc.writers, sc.puts, sc.holdAt, sc.earlyAck, segSize, sc.valMax, sc.trim, det))
+		o.Violation(sig, fmt.Sprintf("scenario %s (rf=%d syncData=%v writers=%d puts=%d holdAt=%v earlyAck=%d walSegment=%d valMax=%d trim=%v ackBeforeSendReturns=%v): %s",
+			sc.name, sc.rf, sc.syncData, sc.writers, sc.puts, sc.holdAt, sc.earlyAck, segSize, sc.valMax, sc.trim, sc.ackFirst, det))
 	}
 
 	cl := &ctl{lc: lc, shard: shard}
@@ -1102,6 +1134,33 @@ func runScenario(o *hx.Out, sc scenario, tmpRoot string, idx int) {
 			viol("pipeline:head-or-commit-lags-wal", fmt.Sprintf("all %d writes answered, head=%d commit=%d", total, head, commit))
 		}
 	}
+	// at quiescence the commit offset is not below the highest offset stored by the leader and rf/2 followers
+	if req := int(sc.rf / 2); req > 0 && !cl.wedged.Load() {
+		var lens []int
+		for _, f := range prov.followers {
+			f.mu.Lock()
+			lens = append(lens, len(f.received))
+			f.mu.Unlock()
+		}
+		for _, pf := range prov.pfollowers {
+			n, _, _, _, _ := pf.snapshot()
+			lens = append(lens, n)
+		}
+		sort.Sort(sort.Reverse(sort.IntSlice(lens)))
+		if len(lens) >= req {
+			q := int64(lens[req-1]) - 1
+			if q > head {
+				q = head
+			}
+			if commit < q {
+				viol("tracker:commit-lags-quorum", fmt.Sprintf("at quiescence commit=%d head=%d, but %d follower(s) hold the log up to offset %d (entries held per follower: %v) and acknowledged every entry they received",
+					commit, head, req, q, lens))
+			}
+		}
+		for _, f := range prov.followers {
+			o.CountN("gate:ack-processed-before-send-returned", int(atomic.LoadInt32(&f.settled)))
+		}
+	}
 	// followers received the log in order
 	for _, f := range prov.followers {
 		f.mu.Lock()
@@ -1125,7 +1184,7 @@ func runScenario(o *hx.Out, sc scenario, tmpRoot string, idx int) {
 	if nerr > 0 || nstuck > 0 {
 		verdict = fmt.Sprintf("failed=%d stuck=%d", nerr, nstuck)
 	}
-	o.Case("pipe", fmt.Sprintf("%s rf=%d sync=%v writers=%d puts=%d hold=%v early=%d seg=%d valmax=%d trim=%v break=%d dropAcks=%v", sc.name, sc.rf, sc.syncData, sc.writers, sc.puts, sc.holdAt, sc.earlyAck, segSize, sc.valMax, sc.trim, sc.streamBreak, sc.dropAcks),
+	o.Case("pipe", fmt.Sprintf("%s rf=%d sync=%v writers=%d puts=%d hold=%v early=%d seg=%d valmax=%d trim=%v ackFirst=%v break=%d dropAcks=%v", sc.name, sc.rf, sc.syncData, sc.writers, sc.puts, sc.holdAt, sc.earlyAck, segSize, sc.valMax, sc.trim, sc.ackFirst, sc.streamBreak, sc.dropAcks),
 		fmt.Sprintf("%s writes=%d wal=%d head=%d commit=%d", verdict, total, len(walOffsets), head, commit),
 		fmt.Sprintf("%s/%d/%v/%d/%d/%d", sc.name, sc.rf, sc.syncData, sc.writers, sc.puts, idx))
 
@@ -1210,8 +1269,13 @@ func main() {
 		// free-running concurrency
 		run(scenario{name: "free-rf1", rf: 1, syncData: false, writers: hx.Pick(r, ws), puts: 20 + r.Intn(40), earlyAck: -1})
 		run(scenario{name: "free-rf1-sync", rf: 1, syncData: true, writers: hx.Pick(r, ws), puts: 10 + r.Intn(20), earlyAck: -1})
-		run(scenario{name: "free-rf3", rf: 3, syncData: r.Bool(), writers: hx.Pick(r, ws), puts: 10 + r.Intn(30), earlyAck: -1})
-		run(scenario{name: "free-rf2", rf: 2, syncData: r.Bool(), writers: hx.Pick(r, ws), puts: 10 + r.Intn(20), earlyAck: -1})
+		run(scenario{name: "free-rf3", rf: 3, syncData: r.Bool(), writers: hx.Pick(r, ws), puts: 10 + r.Intn(30), earlyAck: -1, ackFirst: r.Chance(30)})
+		run(scenario{name: "free-rf2", rf: 2, syncData: r.Bool(), writers: hx.Pick(r, ws), puts: 10 + r.Intn(20), earlyAck: -1, ackFirst: r.Chance(30)})
+		// forced: the ack is processed by the leader before the cursor's Send returns; one sequential writer
+		for _, rf := range []uint32{2, 3} {
+			run(scenario{name: fmt.Sprintf("ack-before-send-returns-rf%d", rf), rf: rf, syncData: r.Bool(), writers: 1, puts: 4 + r.Intn(6),
+				earlyAck: -1, ackFirst: true, quorumOnly: true})
+		}
 		// the same over a WAL that rolls over every few entries (and is trimmed while the writes run, rf <= 2)
 		segs := []int32{8 * 1024, 16 * 1024, 32 * 1024}
 		run(scenario{name: "roll-rf1", rf: 1, syncData: r.Bool(), writers: hx.Pick(r, ws), puts: 12 + r.Intn(20), earlyAck: -1,
